@@ -116,19 +116,23 @@ def safeNameAux : Bool → List Char → List Char
 
 def safeName (s : Name) : Name := safeNameAux false s
 
-/-- `reduce_requirements`: a dict keyed by `project_name`, insertion ordered.  `none` = the
+/-- the key `reduce_requirements` groups by: `normalize_project_name(req.project_name)` (since the D3 repair; it was
+the bare `project_name` before, which kept `Foo` and `foo` apart) -/
+def reduceKey (n : Name) : Name := normName (safeName n)
+
+/-- `reduce_requirements`: a dict keyed by the normalised `project_name`, insertion ordered.  `none` = the
 `ValueError` of `merge_requirements` (two names with one `project_name` but different normal forms,
 e.g. `a--b` and `a-b`). -/
 def reduceStep (acc : Option (List (Name × Req))) (r : Req) : Option (List (Name × Req)) :=
   match acc with
   | none => none
   | some acc =>
-    match acc.find? (fun p => p.1 = safeName r.name) with
+    match acc.find? (fun p => p.1 = reduceKey r.name) with
     | some p =>
       match mergeReq p.2 r with
       | none => none
-      | some m => some (acc.map fun q => if q.1 = safeName r.name then (q.1, m) else q)
-    | none => some (acc ++ [(safeName r.name, r)])
+      | some m => some (acc.map fun q => if q.1 = reduceKey r.name then (q.1, m) else q)
+    | none => some (acc ++ [(reduceKey r.name, r)])
 
 def reduceReqs (rs : List Req) : Option (List Req) := (rs.foldl reduceStep (some [])).map (·.map (·.2))
 
